@@ -1085,12 +1085,16 @@ def check_release_refill(chk, unit, rule="L4"):
                                 return st_ | {("val", l_["d"], cv_)}
                             # a slot pointer taken while the index local holds the released entry's index: e = &T[id]
                             r_ = X.strip(x_["ch"][1])
+                            tb_, j_ = None, None
                             if r_ is not None and r_.get("k") == "un" and r_.get("op") == "&":
                                 t_ = X.strip(r_["ch"][0])
-                                if t_ is not None and t_.get("k") == "index" and canon(f, t_["ch"][0]) == canon(f, b["ch"][0]):
-                                    j_ = X.strip(t_["ch"][1])
-                                    if X.const_val(j_) == rel_idx or (j_.get("k") == "ref" and ("val", j_.get("d"), rel_idx) in state):
-                                        return st_ | {("slot", l_["d"], rel_idx)}
+                                if t_ is not None and t_.get("k") == "index":
+                                    tb_, j_ = t_["ch"][0], X.strip(t_["ch"][1])
+                            elif r_ is not None and r_.get("k") == "bin" and r_.get("op") == "+":
+                                tb_, j_ = r_["ch"][0], X.strip(r_["ch"][1])          # e = T + id
+                            if tb_ is not None and j_ is not None and canon(f, tb_) == canon(f, b["ch"][0]):
+                                if X.const_val(j_) == rel_idx or (j_.get("k") == "ref" and ("val", j_.get("d"), rel_idx) in state):
+                                    return st_ | {("slot", l_["d"], rel_idx)}
                             return st_
                     return state
                 # forward from the release only (paths that do not pass the release are not this rule's business)
